@@ -111,6 +111,7 @@ def _worker(task):
         'inconclusive': list(eng.inconclusives),
         'error': err,
         'calls': sorted(loader.CALLS),
+        'path_samples': eng.path_samples,
         'wall': time.time() - t0,
     }
 
@@ -265,6 +266,7 @@ def run_check(pid: str, tier: str, seed: int, nproc: int | None = None,
                              timeout_s=prop.task_timeout[tier], on_result=on_result)
     per_harness: dict = {}
     slow: list = []
+    path_samples: list = []
     nskipped = 0
     for item in results:
         task, status, res = item
@@ -288,6 +290,9 @@ def run_check(pid: str, tier: str, seed: int, nproc: int | None = None,
                 setattr(st, k, v)
         agg.merge(st)
         calls.update(res['calls'])
+        if len(path_samples) < 4 and res.get('path_samples'):
+            path_samples.append({'configuration': {k: v for k, v in cfg.items() if not k.startswith('_')},
+                                 'path': res['path_samples'][-1]})
         h = cfg.get('harness', '?')
         ph = per_harness.setdefault(h, {'configs': 0, 'paths': 0, 'obligations': 0, 'wall': 0.0})
         ph['configs'] += 1
@@ -399,7 +404,7 @@ def run_check(pid: str, tier: str, seed: int, nproc: int | None = None,
             'rule': 'one evaluation = one z3-feasible execution path of one configuration '
                     '(distinct decision vector); non-trivial = the path made >= 1 symbolic '
                     'decision or carried >= 1 solver-checked obligation',
-            'samples': (agg.samples[:6] + (extra or {}).get('samples', [])[:6]) or [{'note': 'no sample'}],
+            'samples': (path_samples + agg.samples[:4] + (extra or {}).get('samples', [])[:4]) or [{'note': 'no sample'}],
             'configurations': len(cfgs),
             'configurations_skipped_after_violation': nskipped,
             'paths': agg.paths,
